@@ -217,6 +217,9 @@ def tr(cx, e):
         if tyl[0] == "qty" and tyl == tyr and op == "/" and cx.qdiv:
             x = cx.fresh()
             return bl + br + [("bind", x, ("m", f"{cx.qdiv} {paren(tl)} {paren(t_r)}"))], x, AMT
+        if tyl == ("str",) and tyr == ("str",) and op in ("==", "!="):
+            t = f"({tl} == {t_r})"
+            return bl + br, (t if op == "==" else f"(!{t})"), BOOL
         if tyl[0] == "unit" and tyl == tyr and op in ("==", "!="):
             t = f"decide ({tl} = {t_r})"
             return bl + br, (t if op == "==" else f"(!{t})"), BOOL
@@ -322,6 +325,8 @@ def tr_mcall(cx, e):
             return br, f"{T}.scale {paren(t)}", AMT
         if name == "si_prefix" and not args:
             return br, t, ("optprefix", T)
+        if name == "symbol" and not args and T == "S":
+            return br, f"S.symbol {paren(t)}", ("str",)
         if name == "ratio" and len(args) == 1:
             ba, ta, tya = tr(cx, args[0])
             if tya != ty:
@@ -654,6 +659,202 @@ def mon_block(cx, stmts, tail):
     return wrap(binds, m), ty
 
 
+
+# ------------------------------------------------------------------ the ordering part of `analyze`
+
+UNITDEF_TEXT = {("name", "value"): "name", ("symbol", "value"): "symbol", ("unit_ident", "to_string"): "ident",
+                ("unit_ident", None): "ident"}
+
+
+def cmp_expr(where, e, env):
+    """expression inside a `sort_by` closure -> (Lean term, type) with types 'key' (f64 sort key),
+    'text', 'optord', 'ord'"""
+    e = strip_ref(e)
+    k = e[0]
+    if k == "path" and len(e[1]) == 1 and e[1][0] in env:
+        return env[e[1][0]]
+    if k == "call" and e[1] == ("path", ["opt_lit_to_f64"]) and len(e[2]) == 1:
+        a = strip_ref(e[2][0])
+        if a[0] == "field" and a[2] == "scale":
+            v = strip_ref(a[1])
+            if v[0] == "path" and len(v[1]) == 1 and env.get(v[1][0], (None, None))[1] == "unitdef":
+                return f"sortKey {env[v[1][0]][0]}", "key"
+        raise Untranslatable(f"{where}: opt_lit_to_f64 of something that is not `<unit>.scale`")
+    if k == "field":
+        v = strip_ref(e[1])
+        if v[0] == "path" and len(v[1]) == 1 and env.get(v[1][0], (None, None))[1] == "unitdef" \
+                and (e[2], None) in UNITDEF_TEXT:
+            return f"{env[v[1][0]][0]}.{UNITDEF_TEXT[(e[2], None)]}", "text"
+    if k == "mcall":
+        _, recv, name, args = e
+        r0 = strip_ref(recv)
+        if r0[0] == "field" and not args and (r0[2], name) in UNITDEF_TEXT:
+            v = strip_ref(r0[1])
+            if v[0] == "path" and len(v[1]) == 1 and env.get(v[1][0], (None, None))[1] == "unitdef":
+                return f"{env[v[1][0]][0]}.{UNITDEF_TEXT[(r0[2], name)]}", "text"
+        t, ty = cmp_expr(where, recv, env)
+        if name in ("clone", "as_str", "to_owned", "to_string") and not args and ty == "text":
+            return t, ty
+        if name == "partial_cmp" and len(args) == 1 and ty == "key":
+            t2, ty2 = cmp_expr(where, args[0], env)
+            if ty2 == "key":
+                return f"(F64.pcmp ({t}) ({t2}))", "optord"
+        if name == "cmp" and len(args) == 1 and ty == "text":
+            t2, ty2 = cmp_expr(where, args[0], env)
+            if ty2 == "text":
+                return f"(textCmp {t} {t2})", "ord"
+        if name == "unwrap" and not args and ty == "optord":
+            return f"(unwrapOrd {t})", "ord"
+        if name == "reverse" and not args and ty == "ord":
+            return f"(Ordering.swap {t})", "ord"
+        if name == "then" and len(args) == 1 and ty == "ord":
+            t2, ty2 = cmp_expr(where, args[0], env)
+            if ty2 == "ord":
+                return f"(Ordering.then {t} {t2})", "ord"
+        if name == "then_with" and len(args) == 1 and ty == "ord":
+            c = strip_ref(args[0])
+            if c[0] == "closure" and not c[1]:
+                t2, ty2 = cmp_body(where, c[2], env)
+                if ty2 == "ord":
+                    return f"(Ordering.then {t} {t2})", "ord"
+        raise Untranslatable(f"{where}: `.{name}()` on a value of type {ty} in a sort comparator")
+    raise Untranslatable(f"{where}: expression form `{k}` in a sort comparator")
+
+
+def cmp_body(where, e, env):
+    e = strip_ref(e)
+    if e[0] != "block":
+        return cmp_expr(where, e, env)
+    env = dict(env)
+    for st in e[1]:
+        if st[0] != "let" or st[1][0] != "pid" or st[3] is None:
+            raise Untranslatable(f"{where}: statement in a sort comparator")
+        env[st[1][1]] = cmp_expr(where, st[3], env)
+    if e[2] is None:
+        raise Untranslatable(f"{where}: sort comparator without a value")
+    return cmp_expr(where, e[2], env)
+
+
+def comparator(where, c):
+    """closure |a, b| -> Ordering   ==>   Lean `fun a b => <not Greater>` (what a stable sort keeps in place)"""
+    c = strip_ref(c)
+    if c[0] != "closure" or len(c[1]) != 2 or any(p[0] != "pid" for p in c[1]):
+        raise Untranslatable(f"{where}: sort_by needs a closure |a, b|")
+    a, b = c[1][0][1], c[1][1][1]
+    t, ty = cmp_body(where, c[2], {a: ("a", "unitdef"), b: ("b", "unitdef")})
+    if ty != "ord":
+        raise Untranslatable(f"{where}: sort comparator of type {ty}")
+    return f"(fun a b => {t} != Ordering.gt)"
+
+
+def mentions_units(e):
+    if isinstance(e, tuple):
+        if e[:1] == ("field",) and e[2] == "units":
+            return True
+        return any(mentions_units(x) for x in e)
+    if isinstance(e, list):
+        return any(mentions_units(x) for x in e)
+    return False
+
+
+def analyze_path(where, block, has_ref):
+    """symbolic execution of `analyze` along the path with / without a #[ref_unit] attribute:
+    -> (Lean list expression for `qty_def.units`, kind of attribute parser used)"""
+    state = {"units": None, "parser": None}
+    REF = "ref"
+
+    def value(e):
+        e = strip_ref(e)
+        if e[0] == "call" and e[1][0] == "path" and len(e[1][1]) == 1:
+            f = e[1][1][0]
+            if f in ("unit_defs_with_scale_from_attrs", "unit_defs_without_scale_from_attrs"):
+                state["parser"] = f
+                return "units"
+        if e[0] == "match":
+            sc = strip_ref(e[1])
+            if sc == ("path", ["opt_ref_unit_attr"]):
+                for pat, guard, body in e[2]:
+                    is_some = pat[0] == "pts" and pat[1] == ["Some"]
+                    is_none = pat[0] == "ppath" and pat[1] == ["None"]
+                    if guard is None and ((is_some and has_ref) or (is_none and not has_ref)):
+                        return value(body)
+        raise Untranslatable(f"{where}: value assigned to `units` not understood")
+
+    def run(stmts, tail):
+        items = list(stmts) + ([("expr", tail, False)] if tail is not None else [])
+        for st in items:
+            if st[0] == "let":
+                if mentions_units(st[3]):
+                    raise Untranslatable(f"{where}: `units` read in a let")
+                continue
+            e = st[1]
+            if e[0] == "if" and e[1][0] == "let":
+                _, pat, scrut = e[1]
+                if strip_ref(scrut) != ("path", ["opt_ref_unit_attr"]) or pat[0] != "pts" or pat[1] != ["Some"]:
+                    if mentions_units(e):
+                        raise Untranslatable(f"{where}: `if let` around `units`")
+                    continue
+                br = e[2] if has_ref else e[3]
+                if br is not None:
+                    if br[0] != "block":
+                        raise Untranslatable(f"{where}: else-if around `units`")
+                    run(br[1], br[2])
+                continue
+            if e[0] == "assign" and e[1] == "=" and e[2][0] == "field" and e[2][2] == "units":
+                state["units"] = value(e[3])
+                continue
+            if e[0] == "mcall" and e[1][0] == "field" and e[1][2] == "units":
+                if state["units"] is None:
+                    raise Untranslatable(f"{where}: `units.{e[2]}` before `units` is assigned")
+                if e[2] == "insert" and len(e[3]) == 2 and e[3][0] == ("lit", "int", "0") \
+                        and strip_ref(e[3][1]) == ("path", ["ref_unit_def"]) and has_ref:
+                    state["units"] = f"({REF} :: {state['units']})"
+                    continue
+                if e[2] == "push" and len(e[3]) == 1 and strip_ref(e[3][0]) == ("path", ["ref_unit_def"]) and has_ref:
+                    state["units"] = f"({state['units']} ++ [{REF}])"
+                    continue
+                if e[2] == "sort_by" and len(e[3]) == 1:
+                    state["units"] = f"(isort {comparator(where, e[3][0])} {state['units']})"
+                    continue
+                if e[2] == "reverse" and not e[3]:
+                    state["units"] = f"(List.reverse {state['units']})"
+                    continue
+                raise Untranslatable(f"{where}: `units.{e[2]}(..)` is outside the subset")
+            if mentions_units(e):
+                raise Untranslatable(f"{where}: use of `units` not understood")
+        return None
+
+    run(block[1], block[2])
+    if state["units"] is None:
+        raise Untranslatable(f"{where}: `units` never assigned ({'with' if has_ref else 'without'} reference unit)")
+    return state["units"], state["parser"]
+
+
+def translate_analyze(mt, where):
+    fns = functions_in(mt, 0, len(mt)).get("analyze")
+    if not fns or len(fns) != 1:
+        raise Untranslatable(f"{where}: fn analyze not found")
+    try:
+        block = parse_block(fns[0][2])
+    except ParseError as e:
+        raise Untranslatable(f"{where}: analyze: {e}")
+    out = []
+    for has_ref, lean, params in ((True, "Analyze.withRef", "(ref : UnitDef) (units : List UnitDef)"),
+                                  (False, "Analyze.noRef", "(units : List UnitDef)")):
+        try:
+            expr, parser = analyze_path(f"{where}: analyze", block, has_ref)
+            want = "unit_defs_with_scale_from_attrs" if has_ref else "unit_defs_without_scale_from_attrs"
+            if parser != want:
+                raise Untranslatable(f"{where}: analyze: units parsed by `{parser}` {'with' if has_ref else 'without'} reference unit")
+            out.append(f"def {lean} {params} : List UnitDef :=\n  {expr}")
+        except Untranslatable as e:
+            FAILURES.append(str(e))
+            msg = str(e).replace('"', "'")
+            out.append(f"/-- NOT TRANSLATED: {msg} -/\ndef {lean} {params} : List UnitDef :=\n  untranslatable \"{msg}\"")
+        out.append("")
+    return out
+
+
 # ------------------------------------------------------------------ locating the functions
 
 def find_block(toks, start_words):
@@ -692,7 +893,7 @@ def functions_in(toks, lo, hi):
     return out
 
 
-LEAN_TY = {("amt",): "A", ("bool",): "Bool", ("ordering",): "Ordering"}
+LEAN_TY = {("amt",): "A", ("bool",): "Bool", ("ordering",): "Ordering", ("str",): "Text"}
 
 
 def lean_ty(ty, tv):
@@ -721,6 +922,8 @@ def param_type(cx, name, text, self_ty):
         return self_ty
     if t == "AmountT":
         return AMT
+    if t == "str":
+        return ("str",)
     if t in ("Self::UnitType",):
         return ("unit", cx.tables["Self"])
     if t in cx.tables:
@@ -761,6 +964,8 @@ EXPECTED = {
 RATE_TT = ("rate", "TT", "TP")
 EXPECTED.update({
     ("Unit", "as_qty"): ("(self : U)", "Q A U", False, QT_T),
+    ("Unit", "from_symbol"): ("(symbol : Text)", "Option U", False, ("opt", ("unit", "S"))),
+    ("Quantity", "unit_from_symbol"): ("(symbol : Text)", "Option U", False, ("opt", ("unit", "S"))),
     ("Scalar", "amnt_mul_qty"): ("(self : A) (rhs : Q A U)", "Res (Q A U)", True, QT_T),
     ("Scalar", "qty_mul_amnt"): ("(self : Q A U) (rhs : A)", "Res (Q A U)", True, QT_T),
     ("Scalar", "qty_div_amnt"): ("(self : Q A U) (rhs : A)", "Res (Q A U)", True, QT_T),
@@ -787,8 +992,9 @@ FAILURES = []
 
 def translate_fn(sigs, where, trait, name, fn, tables, self_ty, tv, lean_name=None, with_tables=True, qdiv=False):
     lean = lean_name or f"{trait}.{name}"
-    order = ["T", "TL", "TR", "TO", "TT", "TP"]
-    tabs = " ".join(f"({t} : QT A {tv[t]})" for t in sorted(set(tables.values()), key=order.index)) if with_tables else ""
+    order = ["T", "TL", "TR", "TO", "TT", "TP", "S"]
+    tabs = " ".join((f"({t} : SymTable {tv[t]})" if t == "S" else f"({t} : QT A {tv[t]})")
+                    for t in sorted(set(tables.values()), key=order.index)) if with_tables else ""
     extra = "(qdiv : Q A Nat → Q A Nat → Res A) " if qdiv else ""
     try:
         return translate_fn_inner(sigs, where, trait, name, fn, tables, self_ty, tv, lean, tabs, extra, with_tables, qdiv)
@@ -845,6 +1051,23 @@ namespace Qty.Gen.Algos
 open Qty
 set_option linter.unusedVariables false
 variable {A U V W : Type} [DecidableEq U] [DecidableEq V] [DecidableEq W]
+
+/-- what the symbol lookups use of a unit type: `iter()` and `symbol()` -/
+structure SymTable (U : Type) where
+  units : List U
+  symbol : U → Text
+
+/-- `Ord::cmp` of two strings (byte order of UTF-8 = order of the code points) -/
+def textCmp : Text → Text → Ordering
+  | [], [] => .eq
+  | [], _ :: _ => .lt
+  | _ :: _, [] => .gt
+  | a :: as, b :: bs => if a < b then .lt else if a > b then .gt else textCmp as bs
+
+/-- `Option<Ordering>::unwrap()` inside a sort comparator (the keys of numeric literals are never NaN) -/
+def unwrapOrd : Option Ordering → Ordering
+  | some o => o
+  | none => .lt
 
 /-- placeholder for a body the translator could not read (nothing can be proved about it) -/
 def untranslatable {α : Type} [Inhabited α] (reason : String) : α := default
@@ -987,6 +1210,19 @@ def run(repo):
                             {"Self": "T", "Self::QuantityType": "T"}, ("unit", "T"), tvT, with_tables=False))
     out.append("")
 
+    # ---------------- symbol lookups
+    tvS = {"S": "U"}
+    if "from_symbol" not in uf or len(uf["from_symbol"]) != 1:
+        raise Untranslatable("src/lib.rs: Unit::from_symbol not found")
+    out.append(translate_fn(sigs, "src/lib.rs", "Unit", "from_symbol", uf["from_symbol"][0],
+                            {"Self": "S"}, ("unit", "S"), tvS))
+    out.append("")
+    if "unit_from_symbol" not in qf or len(qf["unit_from_symbol"]) != 1:
+        raise Untranslatable("src/lib.rs: Quantity::unit_from_symbol not found")
+    out.append(translate_fn(sigs, "src/lib.rs", "Quantity", "unit_from_symbol", qf["unit_from_symbol"][0],
+                            {"Self": "S"}, ("qty", "S"), tvS))
+    out.append("")
+
     # ---------------- which trait method each operator of a quantity type forwards to
     def by_header(impls, words, fn, what):
         for hd, fns_ in impls:
@@ -1069,6 +1305,12 @@ def run(repo):
         raise Untranslatable("src/converter.rs: fn convert not found")
     out.append(translate_fn(sigs, "src/converter.rs", "ConversionTable", "convert", cf["convert"][0],
                             {"Q": "T"}, ("convtable", "T"), {"T": "Nat"}, with_tables=False))
+    out.append("")
+    # ---------------- ordering of the units in `analyze`
+    out.append("section")
+    out.append("open MacroFront")
+    out += translate_analyze(mt, where)
+    out.append("end")
     out.append("")
     out.append("end Qty.Gen.Algos")
     return "\n".join(out) + "\n"
